@@ -14,6 +14,6 @@ assert old in s, "pattern not found: " + old
 open(p, "w").write(s.replace(old, new, 1))
 PY
 done
-VERIF_REPO=$D /verif/check $P | tail -${TAIL:-6}
+VERIF_EVIDENCE_DIR=/tmp/ev_mut VERIF_REPO=$D /verif/check $P | tail -${TAIL:-6}
 echo "exit=${PIPESTATUS[0]}"
 rm -rf $D
